@@ -61,6 +61,28 @@ def clip_terms(e):
     return out
 
 
+def _const_of(e):
+    while isinstance(e, tuple) and e and ((e[0] == "call" and str(e[1]).split("::")[-1] in ("from", "into") and e[2]) or e[0] == "cast"):
+        e = e[2][0] if e[0] == "call" else e[4]
+    return e[1] if isinstance(e, tuple) and e and e[0] == "const" and isinstance(e[1], int) else None
+
+
+def exact_division(y):
+    """`(x * c) / d` with constants c, d and d | c loses nothing"""
+    d = _const_of(y[3])
+    if not d:
+        return False
+    m = y[2]
+    if isinstance(m, tuple) and m and m[0] == "proj" and m[-1] == "0":
+        m = m[1]
+    if isinstance(m, tuple) and m and m[0] == "bin" and m[1] in ("Mul", "MulWithOverflow"):
+        for f in (m[2], m[3]):
+            c = _const_of(f)
+            if c is not None and c % d == 0:
+                return True
+    return False
+
+
 def _subst(e, old, new):
     if e is old or e == old:
         return new
@@ -360,6 +382,48 @@ def check(prog, run):
             seen_open[sk] = seen_open.get(sk, 0) + 1
             key = sk + (" #%d" % seen_open[sk] if seen_open[sk] > 1 else "")
             run.bad(rule, key, "in %s: `%s as %s` (from %s) can lose value bits: no interval or dominating guard keeps the operand inside [%d, %d]" % (_kname(p), sym.show(e)[:70], to, frm, rt[0], rt[1]), loc)
+    # R7: a guarded difference is measured against the last *accepted* value: the watermark fields the narrowed differences read are
+    # not stored on any path that ends in a rejection (C05.R1 instances restricted to those fields)
+    wm = set()
+    for (p, bb, kind, frm, to, node, stmt) in obs:
+        if kind != "cast":
+            continue
+        for t_ in sym.walk(sym.expr(u.bodies[p], node)):
+            if isinstance(t_, tuple) and t_ and t_[0] == "bin" and t_[1] in ("Sub", "SubWithOverflow") and isinstance(t_[3], tuple):
+                # the subtrahend is receiver state (read directly, or taken out through Option::replace / take / mem::replace)
+                for y in sym.walk(t_[3]):
+                    if isinstance(y, tuple) and y and y[0] in ("load", "refplace") and isinstance(y[1], str) and y[1].startswith("arg1.") and "[]" not in y[1]:
+                        wm.add(y[1].split(".")[1])
+    run.rule("R7", "range guards of timestamp differences are measured against the last accepted timestamp: the watermark fields (%s) are never stored on a path that ends in a rejection - otherwise a gap that does not fit its field is accepted after one refusal and written as a small wrong value (C05.R1 instances for these fields)" % ", ".join(sorted(wm)))
+    run.check(len(wm) >= 2, "R7", "watermark fields", "narrowed differences read %s" % sorted(wm), "fewer than two watermark fields found under narrowing casts (anchor; fail closed): %s" % sorted(wm), how="count")
+    from . import c05
+    c05.purity_rule(prog, run, "R7", only=lambda store: str(store).split(".")[0] in wm)
+    # R8: truncating integer division accumulated into receiver state
+    run.rule("R8", "no truncating integer division is accumulated into receiver state: `self.f = self.f + a / b` on integers drops the remainder at every call, so the stored position falls behind the value the input implies by up to one unit per call (drift that grows with the recording)")
+    n8 = 0
+    for p in sorted(reach):
+        b = u.bodies[p]
+        if b["in_test_cfg"]:
+            continue
+        if p not in cxs:
+            cxs[p] = A.Ctx(b, u, st.sites.get(p))
+        cx = cxs[p]
+        for (bb_, i_, (root, path), why, node) in st.sites.get(p, []):
+            if not why.startswith("assign") or root != ("arg", 1) or not path or node.get("k") != "assign":
+                continue
+            ex = sym.expr_rv(b, node["rv"])
+            fld = path[0]
+            acc = any(isinstance(y, tuple) and y and y[0] == "load" and isinstance(y[1], str) and y[1].split(".")[:2] == ["arg1", fld] for y in sym.walk(ex))
+            if not acc:
+                continue
+            n8 += 1
+            divs = [y for y in sym.walk(ex) if isinstance(y, tuple) and y and y[0] == "bin" and y[1] in ("Div", "Rem") and (cx.ty_of(y[2]) or "") in A.INT_RANGE and not (y[3][0] == "const" and y[3][1] in (1,)) and not exact_division(y)]
+            k8 = "%s accumulates into %s" % (_kname(p), fld)
+            seen[k8] = seen.get(k8, 0) + 1
+            k8 += " #%d" % seen[k8] if seen[k8] > 1 else ""
+            run.check(not divs, "R8", k8, "no integer division inside the accumulated term",
+                      "in %s the field `%s` is advanced by a term containing the truncating integer division `%s`: the remainder is dropped at every call and never paid back, so `%s` drifts away from the exact value" % (_kname(p), fld, sym.show(divs[0])[:80] if divs else "", fld), mir.loc_of(node))
+    run.floor("R8", n8, 4, "accumulating stores into receiver state")
     # R6 (b): clipped values serialised by to_be_bytes / stored into sample records; (c) integer try_from whose failure is swallowed
     structs, fields = sample_record_fields(u)
     for p in sorted(reach):
